@@ -346,6 +346,11 @@ func (k Keeper) CloseBatchAuction(ctx context.Context, auction types.AuctionI) e
 	// Close the auction when maximum extended round + 1 is the same as the length of end times
 	// If the value of MaxExtendedRound is 0, it means that an auctioneer does not want have an extended round
 	if ba.MaxExtendedRound+1 == uint32(len(auction.GetEndTimes())) {
+		// Publish the matched price used for the settlement; it stays zero when nothing is sold
+		if mInfo.TotalMatchedAmount.IsPositive() {
+			ba.MatchedPrice = mInfo.MatchedPrice
+		}
+
 		if err := k.AllocateSellingCoin(ctx, auction, mInfo); err != nil {
 			return err
 		}
@@ -378,6 +383,11 @@ func (k Keeper) CloseBatchAuction(ctx context.Context, auction types.AuctionI) e
 	// if the auction needs another extended round
 	if diff.GTE(ba.ExtendedRoundRate) {
 		return k.ExtendRound(ctx, ba)
+	}
+
+	// Publish the matched price used for the settlement; it stays zero when nothing is sold
+	if mInfo.TotalMatchedAmount.IsPositive() {
+		ba.MatchedPrice = mInfo.MatchedPrice
 	}
 
 	if err := k.AllocateSellingCoin(ctx, auction, mInfo); err != nil {
